@@ -299,6 +299,10 @@ def check_iterative_method2(case):
     try:
         for k in range(n):
             o.RunMethod2()
+    except ValueError as e:
+        if 'No convergence' in str(e):
+            return [], -1         # the hand-coded whole-vector iteration gave up within its own cap of 100 sweeps: no verdict
+        return [core.violation('iterative-sim-method2-raises:ValueError', 'RunMethod2 raised %r' % (e,), case)], 0
     except Exception as e:
         return [core.violation('iterative-sim-method2-raises:' + type(e).__name__, 'RunMethod2 raised %r' % (e,), case)], 0
     closed = sim_closed(Fr(repr(case['a1'])), Fr(repr(case['a2'])), Fr(repr(case['th'])), G, Fr(repr(float(case['H0']))), n)
@@ -379,7 +383,10 @@ def run_unit(unit, tier):
             if a1 * (1 - th) <= 0.6:      # the whole-vector iteration of RunMethod2 is capped at 100 sweeps
                 v2, i2 = check_iterative_method2(dict(case, method='RunMethod2'))
                 viols = viols + v2
-                indet += i2
+                if i2 < 0:
+                    core.bump(res['counters'], 'RunMethod2_gave_up_within_its_own_cap')
+                else:
+                    indet += i2
             res['evaluations'] += 1
             res['nontrivial'] += 1
             res['indeterminate'] += indet
